@@ -1,4 +1,5 @@
 import KyupyVerif.Model.SimOps
+import KyupyVerif.Model.Sig
 /-! Certificate checker (K) for a signal-memory map: given the op program with its level partition, the
 location/capacity tables and the circuit (for the alias specification), decide that no two simultaneously
 live signals overlap, pinned signals stay intact, aliases are exact and everything is inside the
@@ -35,8 +36,9 @@ def isJunk (p : MapIn) (i : Nat) : Bool := i == p.ix.tmp || i == p.ix.tmp2
 def ppiSlots (p : MapIn) : List Nat :=
   (p.net.sNodes.zipIdx.filter fun (n, _) => (p.net.node n).outs.length > 0).map fun (_, i) => p.ix.ppi + i
 /-- lines captured by a ppo slot (through stems) -/
-def ppoSrcs (p : MapIn) : List (Nat × Nat) :=   -- (ppo index, captured signal)
-  p.net.sNodes.zipIdx.filterMap fun (n, i) => ((p.net.node n).inPin 0).map fun l => (p.ix.ppo + i, p.src l)
+def ppoSrcsW (p : MapIn) (src : Nat → Nat) : List (Nat × Nat) :=   -- (ppo index, captured signal)
+  p.net.sNodes.zipIdx.filterMap fun (n, i) => ((p.net.node n).inPin 0).map fun l => (p.ix.ppo + i, src l)
+def ppoSrcs (p : MapIn) : List (Nat × Nat) := p.ppoSrcsW p.src
 
 def opsIdx (p : MapIn) : List (OpRow × Nat) := p.ops.zipIdx
 
@@ -44,19 +46,20 @@ def opsIdx (p : MapIn) : List (OpRow × Nat) := p.ops.zipIdx
 def tracked (p : MapIn) : List Nat :=
   ((p.ops.map (·.out)).filter (fun o => !p.isJunk o)) ++ p.ppiSlots ++ [p.ix.zero]
 
+/-- level in which `x` is written (first writer), 0 for a signal no op writes -/
 def dfn (p : MapIn) (x : Nat) : Nat :=
-  match p.opsIdx.find? (fun (o, _) => o.out == x) with
-  | some (_, k) => p.levelOf k
+  match p.ops.findIdx? (fun o => o.out == x) with
+  | some k => p.levelOf k
   | none => 0
 
-def INF : Nat := 1000000000
+def pinnedW (p : MapIn) (ppi ppoS : List Nat) (x : Nat) : Bool :=
+  x == p.ix.zero || ppi.contains x || ppoS.contains x
+def pinned (p : MapIn) (x : Nat) : Bool := p.pinnedW p.ppiSlots (p.ppoSrcs.map (·.2)) x
 
-def pinned (p : MapIn) (x : Nat) : Bool :=
-  x == p.ix.zero || p.ppiSlots.contains x || (p.ppoSrcs.map (·.2)).contains x
-
-def last (p : MapIn) (x : Nat) : Nat :=
-  if p.pinned x then INF else
-  (p.opsIdx.filter (fun (o, _) => (o.ins.map p.src).contains x)).foldl (fun m (_, k) => Nat.max m (p.levelOf k)) (p.dfn x)
+def lastW (p : MapIn) (src dfn : Nat → Nat) (pin : Nat → Bool) (x : Nat) : Nat :=
+  if pin x then p.nLevels + 1 else
+  (p.opsIdx.filter (fun ok => (ok.1.ins.map src).contains x)).foldl (fun m ok => Nat.max m (p.levelOf ok.2)) (dfn x)
+def last (p : MapIn) (x : Nat) : Nat := p.lastW p.src p.dfn p.pinned x
 
 def overlap (p : MapIn) (x y : Nat) : Bool :=
   let a := p.loc x; let b := p.loc y
@@ -65,23 +68,66 @@ def overlap (p : MapIn) (x y : Nat) : Bool :=
 def inBounds (p : MapIn) (x : Nat) : Bool :=
   0 ≤ p.loc x && p.loc x + (p.cap x : Int) ≤ (p.cLen : Int) && p.capsMin ≤ p.cap x
 
-/-- every check, with the name of the first failing one (for diagnostics) -/
-def check (p : MapIn) : Option String :=
-  let tr := p.tracked
-  let outsNJ := (p.ops.map (·.out)).filter (fun o => !p.isJunk o)
+/-- every check, with the name of the first failing one (for diagnostics); the derived tables are parameters so that
+the driver can pass memoised copies (`checkFast`) -/
+def checkW (p : MapIn) (src dfn last : Nat → Nat) (tr : List Nat) (ppo : List (Nat × Nat)) : Option String :=
   if !(tr.all p.inBounds && [p.ix.tmp, p.ix.tmp2].all p.inBounds) then some "bounds"
-  else if !(outsNJ.eraseDups.length == outsNJ.length) then some "signal written twice"
+  else if !(tr.all fun x => !(p.isJunk x)) then some "scratch slot used as a signal"
+  else if !(p.opsIdx.all fun (o, k) => p.isJunk o.out || p.ops.findIdx? (fun o' => o'.out == o.out) == some k) then some "signal written twice"
   else if !(p.opsIdx.all fun (o, k) => o.ins.all fun i =>
-      let s := p.src i
-      (tr.contains s) && p.dfn s < p.levelOf k && !(p.isJunk s)) then some "operand not produced in an earlier level"
+      let s := src i
+      (tr.contains s) && dfn s < p.levelOf k && !(p.isJunk s)) then some "operand not produced in an earlier level"
   else if !(p.opsIdx.all fun (o, _) => o.ins.all fun i =>
-      p.loc i == p.loc (p.src i) && p.cap i == p.cap (p.src i)) then some "alias of a stripped branch is not exact"
-  else if !(p.ppoSrcs.all fun (j, s) => p.loc j == p.loc s && p.cap j == p.cap s && tr.contains s) then some "output slot alias is not exact"
-  else if !(tr.all fun x => tr.all fun y => x == y || !(p.overlap x y) || p.last x < p.dfn y || p.last y < p.dfn x) then some "live signals overlap"
+      p.loc i == p.loc (src i) && p.cap i == p.cap (src i)) then some "alias of a stripped branch is not exact"
+  else if !(ppo.all fun (j, s) => p.loc j == p.loc s && p.cap j == p.cap s && tr.contains s) then some "output slot alias is not exact"
+  else if !(tr.all fun x => tr.all fun y => x == y || !(p.overlap x y) || last x < dfn y || last y < dfn x) then some "live signals overlap"
   else if !(tr.all fun x => !(p.overlap x p.ix.tmp) && !(p.overlap x p.ix.tmp2)) || p.overlap p.ix.tmp p.ix.tmp2 then some "scratch slot overlaps a signal"
   else none
 
+def check (p : MapIn) : Option String := p.checkW p.src p.dfn p.last p.tracked p.ppoSrcs
+
+/-- table of `f` on `0 … n-1` (plain data, so that compiled code computes it once) and its lookup, `f` itself beyond -/
+def tbl (n : Nat) (f : Nat → Nat) : Array Nat := (List.range n).toArray.map f
+def look (a : Array Nat) (n : Nat) (f : Nat → Nat) (x : Nat) : Nat := if x < n then a.getD x 0 else f x
+
+theorem memo_eq (n : Nat) (f : Nat → Nat) : look (tbl n f) n f = f := by
+  funext x
+  simp only [look, tbl]
+  split
+  · rename_i h
+    simp [Array.getD, h]
+  · rfl
+
+/-- the same checker with every derived table computed once (what the driver evaluates) -/
+def checkFast (p : MapIn) : Option String :=
+  let n := p.locs.size
+  let srcA := tbl n p.src
+  let srcF := look srcA n p.src
+  let dfnA := tbl n p.dfn
+  let dfnF := look dfnA n p.dfn
+  let ppo := p.ppoSrcsW srcF
+  let ppi := p.ppiSlots
+  let ppoS := ppo.map (·.2)
+  let pinA := tbl n fun x => if p.pinnedW ppi ppoS x then 1 else 0
+  let pinF := look pinA n fun x => if p.pinnedW ppi ppoS x then 1 else 0
+  let lastA := tbl n (p.lastW srcF dfnF fun x => pinF x == 1)
+  let lastF := look lastA n (p.lastW srcF dfnF fun x => pinF x == 1)
+  p.checkW srcF dfnF lastF p.tracked ppo
+
+theorem checkFast_eq (p : MapIn) : p.checkFast = p.check := by
+  simp only [checkFast, memo_eq, check, ppoSrcs]
+  congr
+  funext x
+  unfold pinned ppoSrcs
+  cases p.pinnedW p.ppiSlots (List.map (fun x => x.snd) (p.ppoSrcsW p.src)) x <;> simp
+
 def ok (p : MapIn) : Bool := p.check.isNone
+
+/-- certificate for an execution order `sched` (op numbers): every op number is valid, every op occurs, none twice,
+and no op of a later level precedes an op of an earlier level -/
+def schedOKB (p : MapIn) (sched : List Nat) : Bool :=
+  sched.all (· < p.ops.length) && (List.range p.ops.length).all (sched.contains ·) && Sig.nodupB sched &&
+  sched.zipIdx.all fun a => sched.zipIdx.all fun b => !(decide (a.2 ≤ b.2)) || decide (p.levelOf a.1 ≤ p.levelOf b.1)
 
 end MapIn
 end KV
